@@ -201,7 +201,7 @@ fn run_requests_case(i: u64, rng: &mut Rng, rep: &mut Report, verbose: bool) {
 }
 
 pub fn requests(ctx: &Ctx) -> Report {
-    let n = ctx.n(5_000, 500_000);
+    let n = ctx.n(50_000, 20_000_000);
     par_cases(ctx, "requests", n, ctx.secs(25, 500), |i, rng, rep| run_requests_case(i, rng, rep, false))
 }
 
@@ -459,7 +459,7 @@ fn run_modifiers_case(i: u64, rng: &mut Rng, rep: &mut Report, verbose: bool) {
 }
 
 pub fn modifiers(ctx: &Ctx) -> Report {
-    let n = ctx.n(5_000, 500_000);
+    let n = ctx.n(50_000, 20_000_000);
     par_cases(ctx, "modifiers", n, ctx.secs(25, 500), |i, rng, rep| run_modifiers_case(i, rng, rep, false))
 }
 
